@@ -200,11 +200,20 @@ def run(A, R: Report, thorough: bool):
             if o_ is f and ok9:
                 # path rule: every path from the start of an iteration to the comparison takes an edge on which `<old task>.has_data` holds
                 def _establishes(e_):
-                    txt = src_resolved(A, f, e_.ast)
-                    if not (txt.endswith('.has_data') and any(x in txt for x in old_names)):
+                    txt = src(e_.ast)
+                    if not (txt.endswith('.has_data') and (any(x in txt for x in old_names) or any(side(t_) == 'old' for t_ in A.sym.terms_at(f, None, [e_.ast]).get(id(e_.ast), [])))):
                         return False
                     return (e_.label == 'T' and not txt.startswith('not ')) or (e_.label == 'F' and txt.startswith('not '))
                 est = [e_.id for e_ in cfg.nodes.values() if e_.kind == 'edge' and _establishes(e_)]
+                # a flag set in an if / elif chain and tested afterwards (`skip_reason`) hides the outcome from a path search: then it is
+                # enough that the presence of the source was *evaluated* on the way (what happens on its outcomes is R20.2b), or that the
+                # path went through the in-memory branch, which never reaches a comparison in a feasible run
+                def _asks(e_):
+                    txt = src(e_.ast)
+                    return (txt.endswith('.has_data') and any(x in txt for x in old_names)) or (e_.label == 'T' and 'InMemoryData' in txt and txt.startswith('issubclass'))
+                if est and cfg.find_path([v for h_ in cfg.nodes.values() if h_.kind == 'for' for v in cfg.succ_by_label(h_.id, 'loop')] or [cfg.entry.id], [cn.id for cn in cfg_nodes_for(cfg, n_)],
+                                         avoid=est + [h_.id for h_ in cfg.nodes.values() if h_.kind == 'for']) is not None:
+                    est = [e_.id for e_ in cfg.nodes.values() if e_.kind == 'edge' and _asks(e_)]
                 heads9 = [h_.id for h_ in cfg.nodes.values() if h_.kind == 'for']
                 starts9 = [v for h_ in heads9 for v in cfg.succ_by_label(h_, 'loop')] or [cfg.entry.id]
                 targets9 = [cn.id for cn in cfg_nodes_for(cfg, n_)]
